@@ -18,10 +18,12 @@ ProjPool(e) == [id \in Ids(e) |-> KOf(e.pool[ToString(id)])]
 NoSharing(e) == LET all == UNION {{<<id, k>> : k \in 1..Len(e.pool[ToString(id)].lids)} : id \in Ids(e)}
                     idOf(x) == e.pool[ToString(x[1])].lids[x[2]]
                 IN \A x \in all, y \in all : x # y => idOf(x) # idOf(y)
-CallOf(e) == IF Has(e, "X") THEN [e EXCEPT !.X = ToSet(e.X)] ELSE e
+CallOf(e) == IF Has(e, "X") THEN [e EXCEPT !.X = ToSet(e.X)]
+             ELSE IF e.op = "relabel" THEN [op |-> "relabel", L |-> LabelFn(e.Lkv)] ELSE e
 RetMatches(e, o) ==
   CASE e.op \in {"labels", "next", "states", "alllabels"} -> ToSet(e.out.ret) = o.ret
     [] e.op = "transitions" -> Pairs(e.out.ret) = o.ret
+    [] e.op = "relabel" -> LabelFn(e.out.ret) = o.ret
     [] OTHER -> TRUE                      \* clone / sub: the new object is compared through the pool
 Judge(e, P) ==
   LET o == IF e.op = "new" THEN CtorOutcome(ToSet(e.S), ToSet(e.S0), Pairs(e.R), LabelFn(e.Lkv))
